@@ -102,6 +102,10 @@ def run(ctx):
         ctx.check(saw_dash and saw_nodash, "D2-ORIENT", PN, "both-arms", "dash / no-dash arms present", "PkgName::new lacks a dash or a no-dash arm", fn_span(body), nontrivial=False)
         ctx.check(saw_nb and saw_nonb, "D3-NB", PN, "both-arms", "nb / no-nb arms present", "PkgName::new lacks an nb or a no-nb arm", fn_span(body), nontrivial=False)
 
+    # ---- the accessors through which the split is observed
+    for fld in ("pkgname", "pkgbase", "pkgversion", "pkgrevision"):
+        accessor_faithful(ctx, "D2-ACCESSOR", "pkgname::PkgName::%s" % fld, fld)
+
     # ---- Summary::pkgbase / pkgversion
     for fn, role in (("summary::Summary::pkgbase", "prefix"), ("summary::Summary::pkgversion", "suffix")):
         ps = ctx.paths(fn)
